@@ -1,2 +1,9 @@
 #!/bin/sh
-exit 0
+# Build the engine (dev + release profile) offline from files on disk.
+set -e
+cd /verif/engine
+export CARGO_NET_OFFLINE=true
+unset RUSTFLAGS
+cargo build -q --bin vcheck
+cargo build -q --bin vcheck --release
+echo "setup ok"
